@@ -11,6 +11,7 @@ package main
 //	crash                          -> <tag>=<snapshot dir>;…  for the last state-changing request
 //	crashat <x>                    die at snapshot x mod #snapshots of the last state-changing request: abandon the DB,
 //	                               continue (closed) on a copy of that snapshot -> ok <tag> ; files=<listing>
+//	dir                            -> the database directory
 //	recover <dir>                  open (non-volatile, load, default options), read everything, close
 //	                               -> ok:<k=len.hash,…>
 //	probe <dir>                    recover, then Put(sentinel), Sync, Close, open, read everything, close
@@ -130,7 +131,7 @@ func (w *worker) state() string {
 	if ns {
 		n = 1
 	}
-	return fmt.Sprintf("ds=%d vs=%d di=%d ex=%d nd=%d pe=%d ns=%d files=%s", ds, vs, di, ex, nd, pe, n, fileList(w.dir))
+	return fmt.Sprintf("ds=%d vs=%d di=%d ex=%d nd=%d pe=%d ns=%d nl=%d files=%s", ds, vs, di, ex, nd, pe, n, w.db.VerifUnloaded(), fileList(w.dir))
 }
 
 func (w *worker) takeSnap(tag string) {
@@ -258,6 +259,8 @@ func (w *worker) handle(t []string) string {
 		}
 		db.Close()
 		return rep
+	case "dir": // the database directory (for a non-perturbing read of its content by the recovery process)
+		return w.dir
 	case "crashls": // the crash points of the last state-changing request: <tag>|<listing>;…
 		var out []string
 		for _, s := range w.snaps {
